@@ -6,6 +6,7 @@ package main
 // panic, no handler that does not come back, every reply parses.
 
 import (
+	"bytes"
 	"encoding/hex"
 	"fmt"
 	"net"
@@ -70,6 +71,9 @@ func runStateful19(c *Ctx) {
 	for _, sz := range sizes {
 		cfgs = append(cfgs, cfg{6, chainPlug{"prefix", []string{pools[r.Intn(4)], sz}}})
 		cfgs = append(cfgs, cfg{6, chainPlug{"prefix", []string{"10.0.0.0/8", sz}}})
+	}
+	for _, pc := range [][]string{{"2001:db8::/120", "129"}, {"2001:db8::/128", "129"}, {"2001:db8::/100", "130"}, {"2001:db8::/120", "128"}, {"2001:db8::/120", "183"}, {"2001:db8::/127", "190"}, {"::ffff:10.0.0.0/120", "129"}} {
+		cfgs = append(cfgs, cfg{6, chainPlug{"prefix", pc}})
 	}
 	cfgs = append(cfgs, cfg{6, chainPlug{"prefix", nil}}, cfg{6, chainPlug{"prefix", []string{"2001:db8::/48"}}}, cfg{6, chainPlug{"prefix", []string{"2001:db8::/48", "64", "extra"}}})
 	// range
@@ -151,6 +155,11 @@ func runStateful19(c *Ctx) {
 				}
 				if perr != nil {
 					c.vio("C19", "stateful-reply-unparseable", fmt.Sprintf("%s accepted by set-up; the reply to datagram %d does not parse: %v", what, j, perr), input)
+				} else if cf.proto == 6 {
+					// parse back to the same options: what was parsed serialises to the bytes that were sent
+					if back, _ := dhcpv6.FromBytes(pb); back != nil && !bytes.Equal(back.ToBytes(), pb) {
+						c.vio("C19", "stateful-reply-roundtrip", fmt.Sprintf("%s accepted by set-up; the reply to datagram %d does not parse back to what was sent (re-serialised bytes differ)", what, j), input)
+					}
 				}
 			}
 		}
